@@ -62,14 +62,17 @@ PROPERTIES = {
         assumptions=[],
     ),
     'C06': dict(
-        units=['wire', 'kani_wire', 'timeout', 'kani_timeout'],
+        units=['wire', 'kani_wire', 'timeout', 'kani_timeout', 'enum_cm'],
         canaries=['wire', 'streams'],
         counterexample=cex.cex_c06,
         extra=[validate.decode_sweep, validate.hostile_streams],
         scope='NARROW: every function anemo itself runs on attacker-controlled bytes before the user service is called returns an error instead '
               'of panicking, for every byte string: read_version_frame (Kani, all inputs), read_request / read_response, from_raw, Version::new, '
               'StatusCode::new, try_parse_timeout, both Timeout::call, and BiStreamRequestHandler::handle swallows the error so only that stream ends. '
-              'Verus proves panic-freedom as a by-product: every unwrap, expect, index and arithmetic operation in a verified body is an obligation.',
+              'Verus proves panic-freedom as a by-product: every unwrap, expect, index and arithmetic operation in a verified body is an obligation. '
+              'The per-connection accept loop (lifted, select! as a nondeterministic choice): ends only on a connection-level error, panics only if a handler task panicked, '
+              'one handler task per accepted stream, no await inside an arm (sufficient condition, confirmed by execution). BOUNDED (enum_cm): the connection manager never '
+              'panics over every run of 3 connectivity checks in which a peer being dialed may itself connect first and the dial then fails, succeeds or stays in flight.',
         unverified=['panics inside tokio-util, bincode, matchit, quinn, rustls', 'the select! loop of InboundRequestHandler::start and task isolation ("other streams and peers keep being served")',
                     'memory exhaustion (bounded only by the frame limit, see C15)', 'stream-level misbehaviour (reset/stop/finish) and datagrams: quinn'],
         assumptions=[],
